@@ -42,6 +42,20 @@ theorem not_lowering (M n x : Nat) (hM : 2 ≤ M) (hx : x ≤ 1) :
 theorem int_to_byte_is_truncation (m : Mem) (a w : Nat) (hw : 1 ≤ w) : m.rd a = m.readLE a w % 256 :=
   low_byte m a w hw
 
+/-- `x is byte` after a word store: the byte the generator reads back at the word's address is the stored value
+modulo 256 - for every word size, every value, every address (little-endian layout; no byte of the rest of the word
+leaks into the cast) -/
+theorem word_store_then_byte_read (m : Mem) (a w v : Nat) (hw : 1 ≤ w) (hb : a + w ≤ m.size) :
+    (m.writeLE a w v).rd a = v % 256 := by
+  rw [low_byte (m.writeLE a w v) a w hw, Mem.readLE_writeLE_same m a w v hb]
+  obtain ⟨k, rfl⟩ : ∃ k, w = k + 1 := ⟨w - 1, by omega⟩
+  rw [Nat.pow_succ, Nat.mul_comm, Nat.mod_mul_right_mod]
+
+/-- `b is int` for a byte `b`: a value below 256 survives the word store and the byte read unchanged -/
+theorem byte_survives_word_roundtrip (m : Mem) (a w b : Nat) (hw : 1 ≤ w) (hb : a + w ≤ m.size) (hlt : b < 256) :
+    (m.writeLE a w b).rd a = b := by
+  rw [word_store_then_byte_read m a w b hw hb, Nat.mod_eq_of_lt hlt]
+
 /-- spot check of the specification itself (floor division, assumption A4): -7 / 2 = -4, -7 % 2 = 1 at 16 bits -/
 example : aluOp 65536 16 .div 65529 2 = some 65532 ∧ aluOp 65536 16 .mod 65529 2 = some 1 := by decide
 
